@@ -23,6 +23,13 @@ CONT = "                # process other announcements that arrived with the bad 
 IMPORT = ("from allmydata.introducer.common import sign_to_foolscap, unsign_from_foolscap,\\\n"
           "     get_tubid_string_from_ann\n")
 
+B32 = "src/allmydata/util/base32.py"
+CU = "src/allmydata/crypto/util.py"
+VKGUARD = "        raise ValueError('public_key_bytes must be bytes')\n\n"
+VKRET = ("    return Ed25519PublicKey.from_public_bytes(\n        a2b(remove_prefix(public_key_bytes, PUBLIC_KEY_PREFIX))\n    )\n")
+A2BPRE = "    precondition(could_be_base32_encoded(cs), \"cs is required to be possibly base32 encoded data.\", cs=cs)\n"
+COULDRET = "    return s8[len(s)%8][s[-1]] and not tr(s, identitytranstable, chars)\n"
+
 GENERIC = "            except Exception:\n                # an unsigned, unknown-key-format or otherwise malformed\n                # announcement must not keep us from processing the others\n                # that arrived in the same batch\n                self.log(\"malformed inbound announcement: %s\" % (ann_t,),\n                         parent=lp, level=log.WEIRD, umid=\"gBPmDw\")\n                continue\n"
 
 MUTANTS = [
@@ -101,6 +108,49 @@ MUTANTS = [
       LIBV + "    except InvalidSignature:\n        raise BadSignature()\n    else:\n        return None\n", None),
     M("vanish-verify-signature", ED, "def verify_signature(public_key, alleged_signature: bytes, data: bytes):",
       "def verify_signature_v2(public_key, alleged_signature: bytes, data: bytes):", "ANALYSIS-ERROR"),
+    # ---- C34.7 one key string, one key: the decoding of the claimed key string is one-to-one
+    M("keystring-normalised-before-decoding", ED, VKGUARD,
+      VKGUARD + "    public_key_bytes = public_key_bytes.strip().lower()\n", "C34.7"),
+    M("keystring-stripped-by-unsign", CO, "ed25519.verifying_key_from_string(b\"pub-\" + claimed_key_vs)",
+      "ed25519.verifying_key_from_string(b\"pub-\" + claimed_key_vs.strip())", "C34.7"),
+    M("keystring-truncated", CO, "ed25519.verifying_key_from_string(b\"pub-\" + claimed_key_vs)",
+      "ed25519.verifying_key_from_string(b\"pub-\" + claimed_key_vs[:55])", "C34.7"),
+    M("keystring-version-prefix-unchecked", CO,
+      "    if not claimed_key_vs.startswith(b\"v0-\"):\n        raise UnknownKeyError(\"only v0- keys recognized\")\n", "",
+      "C34.7", edits=[(CO, "ed25519.verifying_key_from_string(b\"pub-\" + claimed_key_vs)",
+                       "ed25519.verifying_key_from_string(b\"pub-v0-\" + claimed_key_vs[3:])")]),
+    M("keystring-whitespace-removed-by-regex", ED, VKGUARD,
+      VKGUARD + "    import re\n    public_key_bytes = re.sub(br\"\\s+\", b\"\", public_key_bytes)\n", "C34.7"),
+    M("a2b-tolerates-upper-case", B32, A2BPRE, "    cs = cs.lower()\n" + A2BPRE, "C34.7"),
+    M("a2b-alphabet-check-dropped", B32, A2BPRE, "", "C34.7"),
+    M("a2b-lenient-library-decode", B32, A2BPRE + "    precondition(isinstance(cs, bytes), cs)\n\n    cs = cs.upper()\n",
+      "    precondition(isinstance(cs, bytes), cs)\n\n", "C34.7",
+      edits=[(B32, "    return base64.b32decode(cs)\n", "    return base64.b32decode(cs, casefold=True)\n")]),
+    M("base32-last-character-unchecked", B32, COULDRET, "    return not tr(s, identitytranstable, chars)\n", "C34.7"),
+    M("base32-alphabet-unchecked", B32, COULDRET, "    return s8[len(s)%8][s[-1]]\n", "C34.7"),
+    M("base32-alphabet-both-cases", B32, "identitytranstable=identitytranstable, chars=chars):\n    precondition(isinstance(s, bytes), s)",
+      "identitytranstable=identitytranstable, chars=chars + b\"ABCDEFGHIJKLMNOPQRSTUVWXYZ\"):\n    precondition(isinstance(s, bytes), s)",
+      "C34.7"),
+    M("benign-keystring-decoding-hoisted", ED, VKRET,
+      "    raw = remove_prefix(public_key_bytes, PUBLIC_KEY_PREFIX)\n    key_bytes = a2b(raw)\n"
+      "    return Ed25519PublicKey.from_public_bytes(key_bytes)\n", None),
+    M("benign-keystring-checked-prefix-replaced", CO, "ed25519.verifying_key_from_string(b\"pub-\" + claimed_key_vs)",
+      "ed25519.verifying_key_from_string(b\"pub-v0-\" + claimed_key_vs[3:])", None),
+    M("benign-remove-prefix-guard-inverted", CU,
+      "    if s_bytes.startswith(prefix):\n        return s_bytes[len(prefix):]\n    raise BadPrefixError(\n"
+      "        \"did not see expected '{!r}' prefix\".format(prefix)\n    )\n",
+      "    if not s_bytes.startswith(prefix):\n        raise BadPrefixError(\n"
+      "            \"did not see expected '{!r}' prefix\".format(prefix)\n        )\n    rest = s_bytes[len(prefix):]\n    return rest\n", None),
+    M("benign-a2b-padding-spelled-out", B32, "        cs += b\"=\"\n", "        cs = cs + b\"=\"\n", None),
+    M("benign-a2b-upper-into-new-local", B32,
+      "    cs = cs.upper()\n    # Add padding back, to make Python's base64 module happy:\n    while (len(cs) * 5) % 8 != 0:\n"
+      "        cs += b\"=\"\n\n    return base64.b32decode(cs)\n",
+      "    padded = cs.upper()\n    while (len(padded) * 5) % 8 != 0:\n        padded += b\"=\"\n\n    return base64.b32decode(padded)\n", None),
+    M("benign-a2b-redundant-casefold-flag", B32, "    return base64.b32decode(cs)\n", "    return base64.b32decode(cs, casefold=True)\n", None),
+    M("benign-base32-empty-test-by-truth", B32, "    if s == b'':\n        return True\n", "    if not s:\n        return True\n", None),
+    M("benign-base32-conjuncts-swapped", B32, COULDRET, "    return not tr(s, identitytranstable, chars) and s8[len(s)%8][s[-1:][0]]\n", None),
+    M("vanish-verifying-key-from-string", ED, "def verifying_key_from_string(public_key_bytes):",
+      "def verifying_key_from_string_v2(public_key_bytes):", "ANALYSIS-ERROR"),
     # ---- benign
     M("benign-handler-repaired",CL, "            except BadSignature:\n", "            except Exception:\n", None),
     M("benign-handler-repaired-tuple", CL, "            except BadSignature:\n",
